@@ -36,6 +36,7 @@ import (
 const (
 	c15God      = 0 // genesis account, has a key
 	c15NEOA     = 5 // accounts 0..4 have keys (0 = god)
+	c15Script0  = 4 // scripted and has a key
 	c15Script1  = 5 // scripted "contract" accounts (EOA-typed addresses)
 	c15Script2  = 6
 	c15BadCx    = 7 // contract-typed address without a contract account
@@ -101,7 +102,9 @@ func c15Init() {
 }
 
 func c15IsScript(a module.Address) bool {
-	return a.Equal(c15Addrs[c15Script1]) || a.Equal(c15Addrs[c15Script2])
+	// account 4 is scripted too and has a key: value that PreValidate credits to it but a failing
+	// program never delivers lets it reach the out-of-balance branches of the fee code
+	return a.Equal(c15Addrs[c15Script1]) || a.Equal(c15Addrs[c15Script2]) || a.Equal(c15Addrs[c15Script0])
 }
 
 // ---- platform / contract manager wrappers
@@ -491,7 +494,7 @@ func (r *c15Runner) read(tr module.Transition) c15State {
 		} else {
 			s.bal = append(s.bal, as.GetBalance())
 		}
-		if a == c15Script1 || a == c15Script2 {
+		if a == c15Script0 || a == c15Script1 || a == c15Script2 {
 			for k := int64(0); k < c15NKey; k++ {
 				v := "0"
 				if as != nil {
@@ -572,7 +575,7 @@ func (r *c15Runner) Step(t []string, o *Oracle) string {
 			tx.extra = t[7]
 			tx.inputBytes = int(n)
 			if t[1] == "c" {
-				if p, rest, ok := c15ParseProg(t[7]); !ok || rest != "" || !(to == c15Script1 || to == c15Script2) {
+				if p, rest, ok := c15ParseProg(t[7]); !ok || rest != "" || !(to == c15Script0 || to == c15Script1 || to == c15Script2) {
 					_ = p
 					return "bad-op"
 				}
@@ -779,7 +782,7 @@ func c15GenProg(g *Gen, depth int, self int) string {
 			ops = append(ops, fmt.Sprintf("%c%d:%d", "xy"[g.Intn(2)], other(), g.Pick(0, 1, 2, 10, 1000)))
 		case c < 84:
 			if depth < 3 {
-				to := []int{c15Script1, c15Script2}[g.Intn(2)]
+				to := []int{c15Script0, c15Script1, c15Script2}[g.Intn(3)]
 				ops = append(ops, fmt.Sprintf("%c%d:%d:%d(%s)", "cd"[g.Intn(2)], to, g.Pick(0, 0, 1, 10), g.Pick(0, 0, 0, 20, 200), c15GenProg(g, depth+1, to)))
 			} else {
 				ops = append(ops, "e7")
@@ -828,6 +831,31 @@ func c15GenCase(g *Gen, failBias bool) {
 	}
 	nblocks := 2 + g.Intn(5)
 	for b := 0; b < nblocks; b++ {
+		if g.Intn(5) == 0 {
+			// directed: PreValidate credits account 4 with a value that the failing program never
+			// delivers; account 4 then spends it in the same block (checkBalance fails, or with the
+			// legacy balance check the fee cannot be paid: the price-to-zero / rollback branches)
+			a := 1 + g.Intn(3)
+			v := known[a] / 2
+			prog := []string{"f1", "s0=1.e1.f2", "t100000", "x7:1"}[g.Intn(4)]
+			nb := c15InputBytes("c", prog)
+			lim := dflt + input*int64(nb) + int64(g.Pick(0, 5, 50))
+			g.Emit("tx c %d 4 %d %d %d %s", a, v, lim, nb, prog)
+			known[a] -= lim*price + v
+			spend := known[4] + v - (dflt+int64(g.Intn(3)))*price - int64(g.Intn(3))
+			if spend < 0 {
+				spend = 0
+			}
+			g.Emit("tx t 4 %d %d %d", 1+g.Intn(3), spend, dflt+int64(g.Intn(3)))
+			if g.Intn(2) == 0 {
+				g.Emit("tx t 4 %d 0 %d", 1+g.Intn(3), dflt)
+			}
+			g.Emit("exec")
+			known[4] = 0
+			if known[a] < 0 {
+				known[a] = 0
+			}
+		}
 		ntx := 1
 		if g.Intn(3) == 0 {
 			ntx = 2 + g.Intn(4)
@@ -877,7 +905,7 @@ func c15GenCase(g *Gen, failBias bool) {
 				to = c15BadCx
 			default:
 				k = "c"
-				to = []int{c15Script1, c15Script2}[g.Intn(2)]
+				to = []int{c15Script0, c15Script1, c15Script2}[g.Intn(3)]
 				extra = c15GenProg(g, 0, to)
 				if strings.Contains(extra, "b") {
 					// a BTP message of an unknown network would abort the whole block when the
